@@ -1,6 +1,7 @@
 /-
   C17 — Concurrent readers of one squashfs image are safe and correct.
-  Property theorems only (helper lemmas: Proofs/Lru.lean = LruCache.lean, LruInv.lean, LruLive.lean).
+  Property theorems only (helper lemmas: Proofs/Lru.lean = LruCache.lean, LruInv.lean, LruLive.lean;
+  Proofs/LruClient.lean).
 
   All theorems are about the N-thread small-step machine of Model/Lru.lean (a mirror of
   filesystem/squashfs/lru.go) and hold for EVERY number of threads (`progs : List (List Op)`, one
@@ -9,8 +10,14 @@
   and EVERY schedule (`sched : List Tid`, any list of thread ids; a thread that cannot move is
   skipped).  `slack` is the `k` of `add`'s `l.trim(l.maxBlocks - k)`, regenerated from lru.go;
   `facts_agree_add_slack` discharges `1 ≤ slack` for the current source.
+  The readers above the cache are clients of the machine (Model/LruFile.lean, Proofs/LruClient.lean):
+  `clients_adaptive`, `concurrent_equals_sequential`, `handles_sequential` (File.Read / Seek /
+  SetCacheSize programs on any number of handles), `fair_completion`; that the cache is the only
+  shared mutable state and that cached slices are only read is pinned by `facts_agree_no_shared_writes`,
+  `facts_agree_handle_state`, `facts_agree_cached_slices_read_only`.
   Outside the model: data races in the sense of the Go memory model on accesses that are not
-  under the modelled locks (e.g. GetCacheSize), the squashfs readers above the cache.
+  under the modelled locks (e.g. GetCacheSize); the byte-level decoding done by the metadata readers
+  (they are covered as arbitrary `Client`s only).
 -/
 import DiskfsModel.Proofs.Lru
 import DiskfsModel.Proofs.LruClient
@@ -251,6 +258,18 @@ theorem handles_sequential (im : Image) (disk : Pos → Data) {slack : Nat} (hs 
   concurrent_equals_sequential disk hs maxBlocks _ sched hdone t th _ ht
     (by simp [handleClients, List.getElem?_map, hh])
 
+/-- handle_cache_calls (which reads go through the LRU): every cache call a handle makes — whatever
+    its program of Read / Seek / SetCacheSize calls — is a get of ITS OWN file's fragment block
+    (`fs.fragments[fl.fragmentBlockIndex].start`) or the `setMaxBlocks` of a `SetCacheSize`; the data
+    blocks of a file never pass through the cache (device or the handle's last block), so two handles
+    share nothing of them.  The engine's handles family checks the same on the real code: device
+    reads of data blocks and fragment fetches are counted per call and the cache's recency order is
+    compared after every call. -/
+theorem handle_cache_calls (im : Image) (disk : Pos → Data) (f : FileD) (prog : List HOp) :
+    ∀ op ∈ (handleC im f HSt.fresh prog []).ops disk,
+      (∃ pos foff, f.frag = some (pos, foff) ∧ op = .get pos true) ∨ ∃ c, op = .setMax (cacheBlocks f.bs c) :=
+  handleC_ops disk im f prog HSt.fresh []
+
 /-- fair_completion ('always finish'): a schedule made of rounds in each of which every thread gets at
     least one turn completes every call of every thread within `8 · (total number of cache calls)`
     rounds — whatever else the rounds contain, for every cache size and resize pattern (fetches
@@ -290,6 +309,44 @@ theorem facts_agree_setCacheSize : Generated.Lru.setCacheSizeCalls = ["fs.cache.
     the theorems above holds for the current source -/
 theorem facts_agree_add_slack : 1 ≤ Generated.Lru.addTrimSlack := by decide
 
+/-! ### nothing but the cache is shared, and cached data is only read (regenerated facts) -/
+
+/-- no_shared_writes: the only assignments to a field of a `FileSystem` anywhere in the package are in
+    the constructor `Read` (before the value is handed out) and in `Finalize` (workspace filesystems,
+    not readers of an image); the package has NO package-level variable; its only use of `sync` is
+    `sync.Mutex` (the two locks of the machine: no `sync.Pool`, no `sync.Map`, no atomics, no `unsafe`);
+    the buffer `readBlock` returns — which `File.Read` keeps as the handle's last block — is a fresh
+    allocation on every path (`make` or the decompressor's result), never a pooled or cached one.
+    So the LRU is the only mutable state two handles can reach: the `Client` abstraction is complete. -/
+theorem facts_agree_no_shared_writes :
+    Generated.Lru.fsFieldWriters = ["Finalize:workspace", "Read:rootDir"] ∧
+    Generated.Lru.packageVars = [] ∧
+    Generated.Lru.syncAndUnsafeUses = ["sync.Mutex"] ∧
+    Generated.Lru.readBlockBuffers =
+      ["fs.compressor.decompress(b)", "make([]byte, fs.superblock.blocksize)", "make([]byte, size)"] := by decide
+
+/-- the handle state of the model (`HSt.off`, `HSt.last` = location / size / block) is all that
+    `File.Read` / `Seek` assign on a handle (`Close` clears `filesystem`: closed handles are C10's) -/
+theorem facts_agree_handle_state :
+    Generated.Lru.handleFieldWriters =
+      ["Close:filesystem", "Read:block", "Read:blockLocation", "Read:blockSize", "Read:offset", "Seek:offset"] := by decide
+
+/-- cached_slices_read_only (the Go side of 'Data values are immutable'): a def-use scan over the
+    package follows every slice that comes out of the cache (`fs.cache.get`, `readMetaBlock`,
+    `readFragment`; through sub-slicing, local variables, closures and package functions) and finds no
+    use that could write to it or let it escape (element assignment, destination of `copy`, first
+    argument of `append`, stored in a field, passed to a function that is not known to only read);
+    the uses there are: length, element reads, sub-slicing, source of `copy` / `append`. -/
+theorem facts_agree_cached_slices_read_only :
+    Generated.Lru.cachedSliceWrites = [] ∧
+    Generated.Lru.cachedSliceUses =
+      ["Read/outputBlock:copied from (copy source)", "Read/outputBlock:len", "Read:passed to closure outputBlock",
+       "parseFragmentEntry:binary.LittleEndian.Uint32", "parseFragmentEntry:binary.LittleEndian.Uint64",
+       "parseFragmentEntry:len", "readFragment:len", "readFragment:sub-slice returned", "readFragmentTable:len",
+       "readFragmentTable:passed to parseFragmentEntry", "readMetaBlock:returned",
+       "readMetadata:copied from (append source)", "readMetadata:len", "readUidsGids:copied from (append source)",
+       "readXattrsTable:copied from (append source)"] := by decide
+
 /-! ### non-vacuity -/
 
 /-- two threads, cache of one block: thread 0 starts `get 5` and is in its fetch when thread 1's
@@ -325,6 +382,17 @@ example :
     let s := reachC disk 1 1 [c, c, z] [1, 1, 1, 1, 0, 1, 0, 1, 1, 1, 0, 0, 2, 0, 2, 0, 2, 1, 1, 1, 1, 0, 1, 0, 1, 1, 1, 0, 0, 0, 0]
     allDone s = true ∧ c.result disk = 49 ∧
       s.threads.map (fun th => (c.feed th.rets).map (·.isDone)) = [some true, some true, none] := by decide
+/-- a handle on a two-block file with a tail in the fragment block at 500: only the read that reaches the
+    tail calls the cache; the lone reader's answers -/
+example :
+    let im : Image := ⟨fun loc _ _ => List.replicate 16 (UInt8.ofNat loc), fun d => List.replicate 20 (UInt8.ofNat d)⟩
+    let f : FileD := ⟨16, 40, 100, [⟨16, false⟩, ⟨16, false⟩], some (500, 3)⟩
+    let c := handleC im f HSt.fresh [.read 5, .read 5, .seek .end_ (-3), .read 9, .setCache 0] []
+    c.ops (fun _ => 7) = [.get 500 true, .setMax 0] ∧
+      (c.result (fun _ => 7)).map (·.devReads) = [1, 0, 0, 0, 0] ∧
+      (c.result (fun _ => 7)).map (·.out) =
+        [.data (List.replicate 5 100) false, .data (List.replicate 5 100) false, .pos (some 37),
+         .data (List.replicate 3 7) true, .resized] := by decide
 /-- fair rounds: three threads, round-robin -/
 example : FairRound 3 [2, 0, 1, 1] := by intro t ht; have : t = 0 ∨ t = 1 ∨ t = 2 := by omega
                                          rcases this with rfl | rfl | rfl <;> simp
